@@ -39,11 +39,11 @@ SHARD_TIMEOUT = {"quick": 900, "thorough": 1800}
 def shards(tier):
     # the numpy / jax / duck tables are also walked in reverse order in separate processes:
     # the verdict for a dtype must not depend on which dtypes were checked before it
-    return [{"carrier": c} for c in ("numpy", "jax", "jaxtrace", "tf", "duck", "user")] + [{"carrier": c, "reverse": True} for c in ("numpy", "jax", "duck")]
+    return [{"carrier": c} for c in ("numpy", "jax", "jaxtrace", "tf", "duck", "user", "context")] + [{"carrier": c, "reverse": True} for c in ("numpy", "jax", "duck")]
 
 
 def required_counters(tier):
-    return {"triples.numpy": 1000, "triples.jax": 800, "triples.jaxtrace": 800, "triples.tf": 300, "triples.duck": 500, "user.categories": 200, "kinds.key": 30, "kinds.other": 100, "reverse_order_shards": 3}
+    return {"triples.numpy": 1000, "triples.jax": 800, "triples.jaxtrace": 800, "triples.tf": 300, "triples.duck": 500, "user.categories": 200, "kinds.key": 30, "kinds.other": 100, "reverse_order_shards": 3, "context_triples.block": 200, "context_triples.call": 400, "context_triples.after-hostile": 500, "hostile_events": 5}
 
 
 def cat(name):
@@ -52,26 +52,34 @@ def cat(name):
     return getattr(jaxtyping, name)
 
 
-def judge(rec, carrier, dname, kind, cname, x, arrtype, tname=None):
+def judge(rec, carrier, dname, kind, cname, x, arrtype, tname=None, ann=None, where=None):
     """compare one triple with the oracle"""
     C = cat(cname)
     try:
-        ann = C[arrtype, "..."]
+        if ann is None:
+            ann = C[arrtype, "..."]
         got = real.check(x, ann)
     except Exception as e:  # noqa
         got = "exc:" + type(e).__name__
     exp = DT.expected(cname, kind, dname)
     rec.count("triples." + carrier)
     rec.count("kinds." + kind)
-    rec.case((carrier, dname, tname, cname), nontrivial=True)
+    rec.case((carrier, dname, tname, cname, where), nontrivial=True)
     want = "ok" if exp else "no"
     if got != want:
         rec.violation(
             "dtype-category",
-            {"carrier": carrier, "dtype": dname, "type_name": tname, "kind": kind, "category": cname},
-            f"{carrier}: array of dtype {dname} (scalar type {tname}, kind {kind}) vs {cname}: oracle {want}, real {got}",
-            mechanism=classify(carrier, dname, tname, kind, cname, want, got),
+            {"carrier": carrier, "dtype": dname, "type_name": tname, "kind": kind, "category": cname, "where": where},
+            f"{carrier}: array of dtype {dname} (scalar type {tname}, kind {kind}) vs {cname}{' [' + where + ']' if where else ''}: oracle {want}, real {got}",
+            mechanism=_mech(classify(carrier, dname, tname, kind, cname, want, got), where),
         )
+
+
+def _mech(m, where):
+    # the three mechanism names of recorded findings stay as they are wherever the question is asked
+    if not where or m in ("numpy-platform-alias-scalar-name", "tf-quantized-dtype-raises", "tf-opaque-dtype-raises"):
+        return m
+    return m + "-" + where.split(":")[0]
 
 
 SIZED = re.compile(r"^(bool_?|u?int\d+|float\d+(_\w+)?|bfloat16|complex\d+)$")
@@ -327,6 +335,91 @@ def shard_duck(rec, reverse=False):
     rec.sample({"carrier": "duck/torch-style", "dtype": "torch.bfloat16", "category": "Float"})
 
 
+# ----------------------------------------------------------------------------------- context
+
+
+def shard_context(rec, seed):
+    """The same table, asked where real programs ask it: inside a `jaxtyped("context")` block and inside the body
+    of a decorated function, against ONE annotation object per category, with short-lived temporaries (a freed
+    array's address is reused by the next one), and again after hostile PyTree activity in the same thread."""
+    import jax
+    import jax.numpy as jnp
+    import typeguard
+
+    import jaxtyping
+    from jaxtyping import jaxtyped
+
+    rng = random.Random(f"{seed}/C03/context")
+    anns = {c: cat(c)[np.ndarray, "..."] for c in DT.ALL_CATEGORIES}
+    anns_any = {c: cat(c)[typing.Any, "..."] for c in DT.ALL_CATEGORIES}
+    names = ["bool", "uint8", "uint16", "uint32", "uint64", "int8", "int16", "int32", "int64", "float16", "float32", "float64", "complex64", "complex128", "bfloat16", "float8_e4m3fn", "int4", "U3", "M8[ns]"]
+
+    def table(where, order):
+        for dn in order:
+            for cname in DT.ALL_CATEGORIES:
+                try:
+                    import ml_dtypes  # noqa
+
+                    d = np.dtype(getattr(ml_dtypes, dn)) if hasattr(ml_dtypes, dn) and dn not in ("float16", "float32", "float64") and not hasattr(np, dn) else np.dtype(dn)
+                except Exception:
+                    d = np.dtype(dn)
+                x = np.zeros((2,), dtype=d)  # a temporary: dropped before the next one is made
+                judge(rec, "numpy", DT.canonical_name(d), DT.kind_of(d), cname, x, np.ndarray, d.type.__name__, ann=anns[cname], where=where)
+                del x
+                y = real.Duck((2,), DT.canonical_name(d)) if d.kind not in "UMm" else None
+                if y is not None:
+                    judge(rec, "duck", DT.canonical_name(d), DT.kind_of(d), cname, y, typing.Any, "str", ann=anns_any[cname], where=where)
+                del y
+                rec.count("context_triples." + where.split(":")[0])
+
+    def shuffled():
+        o = list(names)
+        rng.shuffle(o)
+        return o
+
+    # 1. one block for the whole table
+    with jaxtyped("context"):
+        table("block", shuffled())
+    # 2. body of a decorated function (typeguard and no typechecker)
+    for tc, lab in ((typeguard.typechecked, "call:typeguard"), (None, "call:none")):
+
+        @jaxtyped(typechecker=tc)
+        def body(order, lab=lab):
+            table(lab, order)
+            return 0
+
+        body(shuffled())
+    # 3. after hostile activity in this thread, at top level and in a block
+    class Unflattenable:
+        pass
+
+    def _boom(_):
+        raise RuntimeError("cannot flatten")
+
+    jax.tree_util.register_pytree_node(Unflattenable, _boom, lambda a, c: Unflattenable())
+    hostile = [
+        lambda: isinstance([np.zeros(2), Unflattenable()], jaxtyping.PyTree[jaxtyping.Float[np.ndarray, "a"]]),
+        lambda: isinstance([np.zeros(2, dtype="float32"), np.zeros(3, dtype="float32")], jaxtyping.PyTree[jaxtyping.Float[np.ndarray, "a"]]),
+        lambda: isinstance({"k": np.zeros(2, dtype="int8")}, jaxtyping.PyTree[jaxtyping.Float[np.ndarray, "?a"], "T"]),
+        lambda: isinstance([], jaxtyping.PyTree[jaxtyping.Float]),
+        lambda: isinstance(real.RaisingShape(), jaxtyping.Float[typing.Any, "a"]) if hasattr(real, "RaisingShape") else None,
+    ]
+    for i, h in enumerate(hostile):
+        try:
+            h()
+        except Exception:
+            pass
+        rec.count("hostile_events")
+        table(f"after-hostile:{i}:top", shuffled()[:8])
+        with jaxtyped("context"):
+            try:
+                h()
+            except Exception:
+                pass
+            table(f"after-hostile:{i}:block", shuffled()[:8])
+    rec.sample({"carrier": "context", "where": "block", "dtype": "int8", "category": "Float"})
+
+
 # -------------------------------------------------------------------------------------- user
 
 
@@ -378,6 +471,8 @@ def run_shard(rec, seed, shard, tier):
         shard_tf(rec)
     elif c == "duck":
         shard_duck(rec, rev)
+    elif c == "context":
+        shard_context(rec, seed)
     else:
         shard_user(rec, seed, tier)
 
@@ -386,7 +481,7 @@ def replay(rec, case):
     warnings.filterwarnings("ignore")
     c = case.get("carrier")
     sub = Rec_filter(rec, case)
-    {"numpy": shard_numpy, "jax": shard_jax, "jaxtrace": shard_jaxtrace, "tf": shard_tf, "duck": shard_duck}.get(c, lambda r: shard_user(r, 0, "quick"))(sub)
+    {"numpy": shard_numpy, "jax": shard_jax, "jaxtrace": shard_jaxtrace, "tf": shard_tf, "duck": shard_duck, "context": lambda r: shard_context(r, 0)}.get(c if not case.get("where") else "context", lambda r: shard_user(r, 0, "quick"))(sub)
 
 
 class Rec_filter:
